@@ -110,6 +110,11 @@ def corpus(bs):
         [("W", 0, 0, 3 * bs, 0x65), ("L", 0), ("R", 0, 2 * bs, 10), ("Z", 0, 2 * bs + 476), ("R", 0, 0, bs), ("Z", 0, 3 * bs), ("R", 0, 2 * bs, bs)],
         [("W", 1, 0, 2 * bs + 100, 0x66), ("L", 1), ("Z", 1, bs + 7), ("R", 1, 0, 10), ("W", 1, 2 * bs, 5, 0x67), ("R", 1, bs, bs + 5)],
         [("W", 0, 0, 2 * bs, 0x68), ("O", 0), ("R", 0, bs, bs), ("Z", 0, bs + 1), ("O", 0), ("Z", 0, 2 * bs), ("R", 0, bs, bs)],
+        # a write that enters the last, partial block at its start and ends exactly at EOF (no read-modify-write needed for the live
+        # bytes) while the handle's buffer holds another block: what lies behind EOF in that block must stay zero for a later extension
+        [("W", 0, 0, bs + 476, 0x31), ("R", 0, 0, bs), ("W", 0, bs, 476, 0x32), ("Z", 0, 2 * bs), ("R", 0, bs, bs)],
+        [("W", 1, 0, 2 * bs + 100, 0x33), ("R", 1, bs, bs), ("W", 1, 2 * bs, 100, 0x34), ("W", 1, 3 * bs, 5, 0x35), ("R", 1, 2 * bs, bs + 5)],
+        [("W", 0, 0, 1500, 0x36), ("O", 0), ("R", 0, 0, 10), ("W", 0, 0, 1500, 0x37), ("Z", 0, 4 * bs), ("R", 0, 0, 4 * bs)],
         [("W", 0, 0, 30 * bs, 0x79), ("P", 0, 0, 20)], [("W", 0, 0, 30 * bs, 0x7A), ("P", 0, 12, 12)], [("W", 0, 0, 30 * bs, 0x7B), ("P", 0, 11, 12)],
     ]
 
